@@ -2,6 +2,7 @@ package sctree
 
 import (
 	"fmt"
+	"sort"
 	"strings"
 
 	"github.com/0chain/common/core/statecache"
@@ -22,6 +23,9 @@ type Hooks struct {
 	TimeAware bool
 	// AllowRemoveKey lets the schedule call StateCache.Remove (only sound when hits alone are judged).
 	AllowRemoveKey bool
+	// MaxLookupBlocks, if > 0, bounds the number of different blocks at which lookups happen in trees that have more
+	// blocks than that (the cache keeps at most 200 entries per key, remembered answers included).
+	MaxLookupBlocks int
 }
 
 type liveTxn struct {
@@ -59,7 +63,9 @@ type Runner struct {
 	MutatedAfterSet, MutatedAfterGet                                                                           int
 	Lookups, Hits, MustHits                                                                                    int
 	DirectBlockWrites                                                                                          int
-	DeepWalks                                                                                                  int             // lookups whose answer lies 20 or more links behind the queried block
+	DeepWalks                                                                                                  int // lookups whose answer lies 20 or more links behind the queried block
+	CappedLookups                                                                                              int
+	lset                                                                                                       map[int]bool
 	VeryDeepWalks                                                                                              int             // ... 100 or more links
 	lookedAt                                                                                                   map[string]bool // key@block looked up at state level
 	removedKeys                                                                                                map[string]bool
@@ -321,10 +327,46 @@ func (r *Runner) Run(nsteps int) {
 	r.CheckHandedOut()
 }
 
+// lookupSet: the blocks at which lookups happen when the number of lookup blocks is bounded: the first ten, the last
+// ones and some evenly spaced ones in between.
+func (r *Runner) lookupSet() map[int]bool {
+	if r.lset != nil {
+		return r.lset
+	}
+	n, m := len(r.Tree.Blocks), r.H.MaxLookupBlocks
+	r.lset = map[int]bool{}
+	for i := 0; i < 10 && i < n; i++ {
+		r.lset[i] = true
+	}
+	for i := 0; i < m/4; i++ {
+		r.lset[10+i*(n-20)/(m/4)] = true
+	}
+	for i := n - 1; i >= 0 && len(r.lset) < m; i-- {
+		r.lset[i] = true
+	}
+	return r.lset
+}
+
 func (r *Runner) lookup(running []*liveBlock) {
 	t := r.Tree
 	key := gen.Pick(r.RT, t.Keys, "lk")
 	kind := gen.Pct(r.RT, "lkind")
+	capped := r.H.MaxLookupBlocks > 0 && len(t.Blocks) > r.H.MaxLookupBlocks
+	if capped {
+		// a lookup inside a running block asks the state at its parent
+		idx := map[string]int{}
+		for i := range t.Blocks {
+			idx[t.Blocks[i].Hash] = i
+		}
+		var keep []*liveBlock
+		for _, lb := range running {
+			if i, ok := idx[lb.decl.Prev]; ok && r.lookupSet()[i] {
+				keep = append(keep, lb)
+			}
+		}
+		running = keep
+		r.CappedLookups++
+	}
 	switch {
 	case kind < 25 && len(running) > 0:
 		lb := gen.Pick(r.RT, running, "lb")
@@ -344,8 +386,16 @@ func (r *Runner) lookup(running []*liveBlock) {
 		r.lookupBlock(gen.Pick(r.RT, running, "lb2"), key)
 	default:
 		b := gen.Pick(r.RT, t.Blocks, "lblock")
+		if capped {
+			var is []int
+			for i := range r.lookupSet() {
+				is = append(is, i)
+			}
+			sort.Ints(is)
+			b = t.Blocks[gen.Pick(r.RT, is, "lblockcapped")]
+		}
 		hash := b.Hash
-		if gen.Chance(r.RT, 4, "lgap") && b.Prev != "" {
+		if gen.Chance(r.RT, 4, "lgap") && b.Prev != "" && !capped {
 			hash = b.Prev
 		}
 		r.lookupState(key, hash, gen.Chance(r.RT, 30, "viaquery"))
